@@ -170,6 +170,92 @@ def le_int(bs, signed=True):
 
 
 def run_kani(crate_dir, harnesses, timeout=900, jobs=8, extra=(), unwind=None, playback=False):
+    """Verify harnesses (fully-qualified names).  One `cargo kani` invocation compiles the
+    crate once and runs the harnesses with `-j jobs` (terse output, per-harness timeout);
+    harnesses it could not attribute a result to are re-run one by one.  With
+    playback=True every harness is run on its own (concrete playback output).
+    Returns {harness: dict(status, failed=[descr], time_s, raw, cover, playback)}."""
+    if playback or len(harnesses) == 1:
+        return run_kani_each(crate_dir, harnesses, timeout=timeout, jobs=jobs, extra=extra, playback=playback)
+    t0 = time.time()
+    jobs = max(2, min(jobs, int(os.environ.get("ABRA_VERIF_JOBS", "6"))))
+    cmd = ["cargo", "kani", "-Z", "function-contracts", "-Z", "stubbing", "-Z", "unstable-options",
+           "--harness-timeout", "%ds" % timeout, "--exact", "--output-format", "terse", "-j", str(jobs)] + list(extra)
+    for h in harnesses:
+        cmd += ["--harness", h]
+    env = kani_env()
+    env["CARGO_TARGET_DIR"] = os.path.join(crate_dir, "target-batch")
+    total = timeout * (len(harnesses) // jobs + 2) + 300
+    try:
+        p = subprocess.run(["timeout", str(total)] + cmd, capture_output=True, text=True, cwd=crate_dir, env=env)
+        raw = p.stdout + "\n" + p.stderr
+    except Exception as ex:  # pragma: no cover
+        raw = str(ex)
+    results = parse_kani_terse(raw, harnesses)
+    missing = [h for h in harnesses if h not in results]
+    if "error: could not compile" in raw or "error[E" in raw:
+        for h in missing:
+            results[h] = dict(status=UNDECIDED, failed=[], time_s=0.0, raw="crate does not compile:\n" + raw[-3000:], cover=[], playback=None)
+        missing = []
+    if missing:
+        results.update(run_kani_each(crate_dir, missing, timeout=timeout, jobs=min(jobs, 4), extra=extra))
+    shutil.rmtree(env["CARGO_TARGET_DIR"], ignore_errors=True)
+    return results
+
+
+def parse_kani_terse(raw, harnesses):
+    cur = {}
+    blocks = {}
+    active = None
+    for line in raw.split("\n"):
+        m = re.match(r'(?:Thread (\d+): )?Checking harness (\S+?)\.\.\.$', line)
+        if m:
+            cur[m.group(1) or "0"] = m.group(2)
+            active = None
+            continue
+        m = re.match(r'Thread (\d+): ?$', line)
+        if m:
+            active = cur.get(m.group(1))
+            if active:
+                blocks.setdefault(active, [])
+            continue
+        if line.startswith("VERIFICATION RESULT") and active is None and len(cur) == 1:
+            active = list(cur.values())[0]
+            blocks.setdefault(active, [])
+        if active:
+            blocks[active].append(line)
+            if line.startswith("Verification Time"):
+                active = None
+    out = {}
+    for h, lines in blocks.items():
+        if h not in harnesses:
+            continue
+        txt = "\n".join(lines)
+        failed = []
+        for fm in re.finditer(r'Failed Checks: ([^\n]*)\n(?: File: ([^\n]*))?', txt):
+            failed.append("%s @ %s" % (fm.group(1), (fm.group(2) or "").strip()))
+        cover = []
+        cm = re.search(r'\*\* (\d+) of (\d+) cover properties satisfied', txt)
+        if cm:
+            cover = [("cover", "SATISFIED")] * int(cm.group(1)) + [("cover", "UNSATISFIABLE")] * (int(cm.group(2)) - int(cm.group(1)))
+        tm = re.search(r'Verification Time: ([0-9.]+)s', txt)
+        if "VERIFICATION:- SUCCESSFUL" in txt:
+            status = DISCHARGED
+        elif "VERIFICATION:- FAILED" in txt:
+            status = FAILED
+            real = [f for f in failed if "unwinding assertion" not in f and "is not currently supported" not in f]
+            if "encountered no panics" in txt:
+                real = failed = ["should_panic harness did not panic"]
+            if not real or "out of memory" in txt or "CBMC failed" in txt or "timed out" in txt.lower():
+                status = UNDECIDED
+        else:
+            status = UNDECIDED
+        out[h] = dict(status=status, failed=failed, time_s=float(tm.group(1)) if tm else 0.0, raw=txt[-4000:], cover=cover, playback=None)
+    return out
+
+
+def run_kani_each(crate_dir, harnesses, timeout=900, jobs=8, extra=(), unwind=None, playback=False):
+
     """Run cargo kani once per harness (in parallel, `jobs` at a time).
     Returns {harness: dict(status, failed=[descr], time_s, raw, cover)}."""
     import concurrent.futures as cf
